@@ -65,6 +65,7 @@ namespace fsh
 
         G& grid;
         std::ostream& os;
+        const void* last_out = nullptr;   // the array update_routes returned last (for `update_again`)
         std::vector<opvar> ops;
         std::unique_ptr<FG> graph;
         // what set_mask / set_base_levels were last given (to replicate on prefix graphs)
@@ -332,6 +333,7 @@ namespace fsh
             spl_obj.reset();
             spl_sig.clear();
             graph.reset();
+            last_out = nullptr;
             mask_set = base_set = false;
             while (l.more())
                 ops.push_back(parse_op(l.next()));
@@ -419,6 +421,55 @@ namespace fsh
             os << "O set_param ok\n";
         }
 
+        // `update_again`: update_routes is handed THE ARRAY IT RETURNED LAST TIME (the caller keeps the
+        // reference and passes it back, typically after changing an operator parameter); the result
+        // must be what a call with a copy of those values gives
+        void call_update_again()
+        {
+            const size_type n = grid.size();
+            if (!last_out)
+            {
+                os << "O update_again none\n";
+                return;
+            }
+            const arr& in = *static_cast<const arr*>(last_out);
+            std::vector<double> v(in.begin(), in.end());
+            arr copy = make_arr(v);
+            echo_state();
+            os << "I elev";
+            for (auto x : v)
+                os << ' ' << hexd(x);
+            os << "\n";
+            echo_perms(copy);
+            const arr* out = nullptr;
+            try
+            {
+                out = &graph->update_routes(in);
+            }
+            catch (const std::exception& e)
+            {
+                os << "O update err " << errkind(e) << "\n";
+                return;
+            }
+            last_out = out;
+            os << "O update ok\n";
+            os << "O elev";
+            for (auto x : *out)
+                os << ' ' << hexd(x);
+            os << "\n";
+            dump_impl("", graph->impl());
+            for (auto& k : graph->graph_snapshot_keys())
+                dump_impl("snap:" + k + ":", graph->graph_snapshot(k).impl());
+            for (auto& k : graph->elevation_snapshot_keys())
+            {
+                os << "O esnap:" << k;
+                for (auto x : graph->elevation_snapshot(k))
+                    os << ' ' << hexd(x);
+                os << "\n";
+            }
+            (void) n;
+        }
+
         void call_update(Line& l)
         {
             const size_type n = grid.size();
@@ -440,6 +491,7 @@ namespace fsh
                 os << "O update err " << errkind(e) << "\n";
                 return;
             }
+            last_out = (out == &elev) ? nullptr : static_cast<const void*>(out);
             os << "O update ok\n";
             // the caller's array must never be written
             bool unchanged = true;
@@ -961,7 +1013,7 @@ namespace fsh
 
         bool dispatch(const std::string& cmd, Line& l)
         {
-            static const char* flow_cmds[] = { "set_mask", "set_base", "set_param", "update", "acc",
+            static const char* flow_cmds[] = { "set_mask", "set_base", "set_param", "update", "update_again", "acc",
                                                "basins", "pits", "bgraph", "mstraw", "spl", "kernel", "snapcall", "adi" };
             if (cmd != "graph" && !graph)
             {
@@ -982,6 +1034,8 @@ namespace fsh
                 call_set_param(l);
             else if (cmd == "update")
                 call_update(l);
+            else if (cmd == "update_again")
+                call_update_again();
             else if (cmd == "acc")
                 call_acc(l, *graph, "");
             else if (cmd == "basins")
